@@ -111,16 +111,18 @@ func genFuncR(p *Program, w *World, fn *ssa.Function, con *Contract, excepts map
 		// the interface value holding the receiver object; the ghost view is abstracted from it
 		postKind = "refine"
 		self := e.makeIface(args[0], fn.Params[0].Type())
-		g := w.Ghosts[ref.Impl.Ghost]
-		if g == nil {
-			panic(elabError{"impl block: unknown ghost " + ref.Impl.Ghost})
+		if ref.Impl.Ghost != "" {
+			g := w.Ghosts[ref.Impl.Ghost]
+			if g == nil {
+				panic(elabError{"impl block: unknown ghost " + ref.Impl.Ghost})
+			}
+			gty, gerr := w.resolveType(g.T, g.Imports, "")
+			if gerr != nil || gty.K != KArr || gty.Elem.K != KArr {
+				panic(elabError{"impl block: ghost " + ref.Impl.Ghost + " must be arr[int]arr[K]V"})
+			}
+			e.ensureSortDecl(gty)
+			e.refine = &refineCtx{impl: ref.Impl, recv: args[0], selfPay: app("if-pay", self.T), ty: gty, cache: map[*State]string{}, entry: st0}
 		}
-		gty, gerr := w.resolveType(g.T, g.Imports, "")
-		if gerr != nil || gty.K != KArr || gty.Elem.K != KArr {
-			panic(elabError{"impl block: ghost " + ref.Impl.Ghost + " must be arr[int]arr[K]V"})
-		}
-		e.ensureSortDecl(gty)
-		e.refine = &refineCtx{impl: ref.Impl, recv: args[0], selfPay: app("if-pay", self.T), ty: gty, cache: map[*State]string{}, entry: st0}
 		env.Imports = w.ImportsOf[con]
 		env.Pkg = con.PkgPath
 		for i, n := range con.Params {
